@@ -361,10 +361,10 @@ def partitions(tier, seed):
         has_table = any(t == 'table' for _, t, _ in m['args'])
         if q and has_table and nstr >= 2:
             # (a) strings symbolic, table empty; (b) strings fixed to "*", table symbolic
-            parts.append(_method_part(m, 1, 200, 'a'))
-            parts.append(_method_part(m, 1, 200, 'b'))
+            parts.append(_method_part(m, 1, 400, 'a'))
+            parts.append(_method_part(m, 1, 400, 'b'))
         else:
-            parts.append(_method_part(m, 1 if q else 2, 200 if q else 480))
+            parts.append(_method_part(m, 1 if q else 2, 400 if q else 480))
     tw = Part('twin_tag_u', [('v', 'bytes')] + T, ['len(v) == 2'] + TP,
               (T_INT % {'w': 2, 'tag': ord('u'), 'signed': False, 'tagL': False}).replace(
                   'return ok and type(got) is int and got == want', 'return not (ok and got == want)'),
